@@ -781,7 +781,7 @@ func genC19(e *emitter) {
 	// source text of the agent upsert (what KM.Client.agentUpsert transcribes)
 	sa := e.pkg("lib/client/sshagent")
 	srcs := map[string]string{}
-	for _, fn := range []string{"deleteDuplicateEntries", "withAddedKeyUpsertCertIntoAgentConnection"} {
+	for _, fn := range []string{"deleteDuplicateEntries", "withAddedKeyUpsertCertIntoAgentConnection", "connectToDefaultSSHAgentLocation"} {
 		src := "<missing>"
 		if fd := sa.funcs[fn]; fd != nil {
 			src = sa.str(fd.Body)
